@@ -17,7 +17,8 @@ EXPLANATION = (
     "through reset leaves all window counters zero and all window containers empty. (SLIDE) the count-based "
     "recording path contains a reachable evicting write (decrement of the aggregates / removal from the bounded "
     "container) that does not depend on a state transition — a necessary condition for 'the last N calls'."
-    ' (HALF-OPEN-COUNT) the counter the closing decision reads is decremented only while closed; (WINDOW-DISPATCH) both recorders file outcomes on the arm of config.sliding_window_type the readers use.')
+    ' (HALF-OPEN-COUNT) the counter the closing decision reads is decremented only while closed; (WINDOW-DISPATCH) both recorders file outcomes on the arm of config.sliding_window_type the readers use.'
+    ' (SLIDE-SYMMETRY) in the function that pushes the new outcome and pops the old one every counter is incremented under the same flags of the recorded outcome as it is decremented under of the evicted one.')
 RULE = "one obligation per state/atomic write site, per decoder arm, per transition call site (table row), per window field in reset, per recorder (slide)"
 TRUSTED = ["std atomics", "rustc MIR construction", "tokio::sync::Mutex"]
 ASSUMPTIONS = ["entry functions of the circuit (record_success, record_failure, try_acquire, force_*, reset) keep their names"]
